@@ -323,6 +323,10 @@ def run_history(b, r, n_steps, out, hist_id):
                 guard = (k, None, False)
             out_msgs = bot.feed(b, actor, b.irc.nick, text)
             ok = replied_ok(out_msgs)
+        # a hostmask that two accounts recognise (login on one, pattern on another) makes getUserId raise
+        # DuplicateHostmask and delete hostmasks (C04's territory): the history ends before that state
+        if any(sum(1 for u in ircdb.users.users.values() if u.checkHostmask(a)) > 1 for a in ACTORS + [OWNER]):
+            break
         cur = snap(b)
         trail.append({'actor': actor, 'cmd': k, 'args': args})
         # ---- property oracle on the implementation
